@@ -1590,6 +1590,102 @@ def rule_r22(repo, run, T):
               "that creates the submodule of an inner namespace calls an undeclared function", wp.loc(wm))
 
 
+
+def rule_r23(repo, run, T):
+    R = run.rule("C05.R23", "a declaration written with the interoperable spelling of a type (gen_arg_as_fortran(bindc=True): "
+                            "f_c_type, e.g. character(kind=C_CHAR), logical(C_BOOL)) imports the kinds of that spelling: "
+                            "`f_c_module or f_module`, not f_module alone")
+    wf = repo.module("wrapf")
+    n = 0
+    for q, fn in sorted(wf.functions().items()):
+        for blk in ast.walk(fn):
+            for fld in ("body", "orelse"):
+                seq = getattr(blk, fld, None)
+                if not isinstance(seq, list):
+                    continue
+                bindc = False
+                for st in seq:
+                    if not isinstance(st, ast.stmt):
+                        continue
+                    calls = [c for c in ast.walk(st) if isinstance(c, ast.Call)] if not isinstance(st, (ast.If, ast.For, ast.While, ast.With, ast.Try)) else []
+                    for c in calls:
+                        name = (pyflow.call_name(c) or "").split(".")[-1]
+                        if (name == "gen_arg_as_fortran" and any(k.arg == "bindc" and isinstance(k.value, ast.Constant) and k.value.value is True
+                                                                  for k in c.keywords)) or name == "bind_c" \
+                                or any(isinstance(x, ast.Attribute) and x.attr == "f_c_type" for a_ in c.args for x in ast.walk(a_)):
+                            bindc = True
+                        elif name == "update_f_module" and len(c.args) == 3 and bindc:
+                            n += 1
+                            a = ast.unparse(c.args[2])
+                            run.check(R, "wrapf.%s:bindc-import" % q, "f_c_module" in a,
+                                      "the declaration before it is written with the interoperable spelling (bindc=True / bind_c() / f_c_type) and the import is `%s`: a "
+                                      "char member of a bind(C) type is declared character(kind=C_CHAR) and C_CHAR is in f_c_module "
+                                      "only - the module does not compile" % a, wf.loc(c))
+                            bindc = False
+    run.floor(R, "imports that follow a bindc=True declaration", n, 2)
+
+
+
+def rule_r24(repo, run, T):
+    R = run.rule("C05.R24", "a typemap built for a declared type names the type in one way: the name it is registered under, its "
+                            "cxx_type and the type inside `static_cast<...>` of c_to_cxx are the same template expanded with the "
+                            "same format dictionary")
+    tm = repo.module("typemap")
+    n = 0
+    for q, fn in sorted(tm.functions().items()):
+        vals = {}
+
+        def spelling(v):
+            """(template text, dictionary) of wformat(T, d); (source text, None) otherwise"""
+            if isinstance(v, ast.Call) and (pyflow.call_name(v) or "").endswith("wformat") and len(v.args) == 2 and pyflow.const_str(v.args[0]):
+                return pyflow.const_str(v.args[0]), ast.unparse(v.args[1])
+            return ast.unparse(v), None
+        for a in ast.walk(fn):
+            if isinstance(a, ast.Assign) and len(a.targets) == 1 and isinstance(a.targets[0], ast.Attribute) \
+                    and a.targets[0].attr in ("cxx_type", "c_to_cxx"):
+                vals.setdefault((ast.unparse(a.targets[0].value), a.targets[0].attr), []).append((spelling(a.value), a))
+        for (obj, attr), lst in sorted(vals.items()):
+            if attr != "c_to_cxx":
+                continue
+            for (text, dct), a in lst:
+                mo = re.search(r"static_cast<\s*(.+?)\s*[*&]?\s*>\(", text)
+                ct = vals.get((obj, "cxx_type"))
+                if not mo or not ct or dct is None:
+                    continue
+                n += 1
+                (ctext, cdct), ca = ct[0]
+                run.check(R, "typemap.%s:c_to_cxx" % q, mo.group(1) == ctext and cdct == dct,
+                          "c_to_cxx casts to `%s` (expanded with %s) and cxx_type is `%s` (%s): for a type declared in a namespace or "
+                          "a class one of the two names a type that does not exist and the wrapper does not compile"
+                          % (mo.group(1), dct, ctext, cdct or "not a template"), tm.loc(a if mo.group(1) != ctext else ca))
+    run.floor(R, "typemap constructors that set cxx_type and a cast to it", n, 1)
+
+
+def rule_r25(repo, run, T):
+    R = run.rule("C05.R25", "classes may refer to each other (an argument of a method of A is a B declared further down): the "
+                            "Python fields of every class typemap are filled in a pass of their own before the first class is "
+                            "wrapped")
+    wp = repo.module("wrapp")
+    fn = wp.func("Wrapp.wrap_namespace")
+    fills = [a for a in ast.walk(fn) if isinstance(a, ast.Assign) and isinstance(a.targets[0], ast.Attribute)
+             and a.targets[0].attr.startswith("PY_") and "typemap" in ast.unparse(a.targets[0].value)]
+    wraps = [c for c in ast.walk(fn) if isinstance(c, ast.Call) and (pyflow.call_name(c) or "") == "self.wrap_class"]
+    if len(fills) < 3 or not wraps:
+        raise AnalysisError("C05.R25: the typemap pass / wrap_class call of Wrapp.wrap_namespace not found")
+
+    def loop_of(node):
+        p_ = getattr(node, "_parent", None)
+        while p_ is not None and not isinstance(p_, (ast.For, ast.While)):
+            p_ = getattr(p_, "_parent", None)
+        return p_
+    fl = set(id(loop_of(a)) for a in fills)
+    wl = set(id(loop_of(c)) for c in wraps)
+    run.check(R, "wrapp.Wrapp.wrap_namespace:typemap-pass-first", not (fl & wl) and max(a.lineno for a in fills) < min(c.lineno for c in wraps),
+              "the typemap fields (%s, ...) are assigned in the loop that also calls wrap_class: a class that is used by a class "
+              "declared before it is still an anonymous object when that one is wrapped - `O` without a type check and a cast "
+              "of PyObject* to the class" % fills[0].targets[0].attr, wp.loc(fills[0]))
+
+
 def run(repo, run, tier):
     tables.check_model_assumptions(repo)
     T = dict(
@@ -1620,6 +1716,9 @@ def run(repo, run, tier):
     rule_r19(repo, run, T)
     rule_r20(repo, run, T)
     rule_r22(repo, run, T)
+    rule_r23(repo, run, T)
+    rule_r24(repo, run, T)
+    rule_r25(repo, run, T)
     run.assumptions.extend([
         "field universe is an over-approximation (any attribute store / Scope keyword in the emitter's "
         "modules defines the field): a report means no assignment exists at all",
